@@ -39,6 +39,23 @@ impl sval::Shown for emit::SpanId { open spec fn shown(&self) -> ShownV { ShownV
 
 #[verifier::external_body] pub struct EncodedPayload { x: u8 }
 
+/// `format_args!(fmt, n)` for one number (mirror; the unit shadows the built-in macro with `fmt_hex`, see otlp_raw_ids):
+/// `{:x}` = minimal-width hex, `{:032x}` / `{:016x}` = zero-padded to the width of a 128 / 64 bit id (the text of the id's
+/// `Display`), anything else = unknown text
+pub trait HexNum { spec fn hex_num(&self) -> int; }
+impl HexNum for Num128 { open spec fn hex_num(&self) -> int { self.0 as int } }
+impl HexNum for Num64 { open spec fn hex_num(&self) -> int { self.0 as int } }
+#[verifier::external_body] pub struct FmtArgs { x: u8 }
+impl FmtArgs { pub uninterp spec fn text(&self) -> ShownV; }
+impl sval::Shown for FmtArgs { open spec fn shown(&self) -> ShownV { self.text() } }
+#[verifier::external_body]
+pub fn fmt_hex<T: HexNum>(fmt: &'static str, n: T) -> (r: FmtArgs)
+    ensures
+        fmt == "{:x}" ==> r.text() == (ShownV::HexMin { n: n.hex_num() }),
+        fmt == "{:032x}" ==> r.text() == (ShownV::Id { bits: 128, n: n.hex_num() }),
+        fmt == "{:016x}" ==> r.text() == (ShownV::Id { bits: 64, n: n.hex_num() }),
+{ unimplemented!() }
+
 //@extract emitter/otlp/src/data.rs / trait RawEncoder
 //@rules R1 R2
 //@keep TraceId SpanId
